@@ -2,6 +2,7 @@ package redisemu
 
 import (
 	"math/rand"
+	"sort"
 	"sync"
 	"sync/atomic"
 	"time"
@@ -95,12 +96,24 @@ func isClientActive() bool {
 }
 
 func processAllClients(op func(id int64, cs *clientState)) {
+	// the table is copied (in id order) and its lock released before the clients are visited:
+	// a visit may need a database that a transaction owns, and that transaction may itself be
+	// waiting for this table (CLIENT LIST queued in it) - each held what the other wanted
 	clientsMu.Lock()
-	defer clientsMu.Unlock()
+	ids := make([]int64, 0, len(clients))
+	for id := range clients {
+		ids = append(ids, id)
+	}
+	sort.Slice(ids, func(i, j int) bool { return ids[i] < ids[j] })
+	visit := make([]*clientState, 0, len(ids))
+	for _, id := range ids {
+		visit = append(visit, clients[id])
+	}
+	clientsMu.Unlock()
 
-	for id, cs := range clients {
+	for _, cs := range visit {
 		if !cs.client.IsCloseRequested() {
-			op(id, cs)
+			op(cs.id, cs)
 		}
 	}
 }
@@ -224,7 +237,10 @@ func (cs *clientState) unblock(reason string, isError bool) (posted bool) {
 				posted = true
 			}
 		}
-		atomic.SwapInt32(&cs.blocked, locked)
+		if locked != CS_CHECKING {
+			// (another goroutine is checking: the state is its to put back, not ours)
+			atomic.SwapInt32(&cs.blocked, locked)
+		}
 
 		if locked == CS_UNCAPTURED || locked == CS_CAPTURED {
 			return
@@ -251,7 +267,10 @@ func (cs *clientState) isBlocked() bool {
 		if locked == CS_CAPTURED {
 			blocked = true
 		}
-		atomic.SwapInt32(&cs.blocked, locked)
+		if locked != CS_CHECKING {
+			// (another goroutine is checking: the state is its to put back, not ours)
+			atomic.SwapInt32(&cs.blocked, locked)
+		}
 
 		if locked == CS_UNCAPTURED || locked == CS_CAPTURED {
 			return blocked
